@@ -86,6 +86,26 @@ theorem graph_id_is_init (gid : Nat) (ops : List Op) {st : Store}
   rw [run_gid] at hr
   exact hr
 
+/-- **new_graph_id.**  `new_graph` whose action publishes the init command plus any number of
+further commands: on success the graph is stored under `gid` = the id of the FIRST published
+command (the parentless init command), the stored graph is exactly the published commands, every
+other one has exactly one parent and the last one is the single head; on failure — a rejection
+after any number of publishes, nothing published, or the graph already exists — the store is what
+it was.  With a graph present it always fails. -/
+theorem new_graph_id (gid : Nat) (store : Option Store) (sink : List SinkEv) (pubs : List Cmd) :
+    (∃ e sink', newGraph gid store sink pubs = (store, sink', .error e)) ∨
+    (store = none ∧ ∃ st' c0 rest last sink', pubs = c0 :: rest ∧ c0.id = gid ∧ c0.parents = [] ∧
+      newGraph gid store sink pubs = (some st', sink', .ok ()) ∧ cmds st'.graph = pubs ∧
+      st'.graph.getLast? = some last ∧ st'.heads = [last.cmd.id] ∧ st'.stamp = 0 ∧
+      (∀ x ∈ (cmds st'.graph).tail, ∃ y, x.parents = [y])) := by
+  rcases newGraph_spec gid store sink pubs with h | ⟨h0, st', c0, rest, last, sink', a, b, c, d, e, f, g, h, _, _, k⟩
+  · exact Or.inl h
+  · exact Or.inr ⟨h0, st', c0, rest, last, sink', a, b, c, d, e, f, g, h, k⟩
+
+theorem new_graph_exists (gid : Nat) (st : Store) (sink : List SinkEv) (pubs : List Cmd) :
+    (newGraph gid (some st) sink pubs).1 = some st ∧ ∃ e, (newGraph gid (some st) sink pubs).2.2 = .error e :=
+  newGraph_some gid st sink pubs
+
 /-! ## non-vacuity: every first-command shape, and init-like commands in a later batch -/
 
 private def i0 : In := { cmd := { id := 1, parents := [], prio := .init, body := [.set 0 0] }, pol := true }
@@ -105,5 +125,21 @@ example : (step (run { gid := 1 } [.openT 0]) (.add 0 [rejecting])).1.store.isSo
 example : (step (run { gid := 1 } [.openT 0, .add 0 [i0]]) (.add 0 [ca, foreign])).2 = .err .initError := by
   decide +kernel
 example : (step (run { gid := 1 } [.openT 0, .add 0 [i0]]) (.add 0 [i0, ca, i0])).2 = .count 1 := by decide +kernel
+
+private def n0 : Cmd := { id := 1, parents := [], prio := .init, body := [.set 0 0, .emit 1] }
+private def n1 : Cmd := { id := 5, parents := [1], prio := .basic 0, body := [.set 1 1] }
+private def n2 : Cmd := { id := 6, parents := [5], prio := .basic 0, body := [.set 2 2] }
+private def nx : Cmd := { id := 7, parents := [6], prio := .basic 0, body := [.set 3 3, .emit 9, .fail] }
+
+example : (step { gid := 1 } (.newGraph [n0, n1, n2])).2 = .done := by decide +kernel
+example : (step { gid := 1 } (.newGraph [n0, n1, n2])).1.store.map (fun s => (s.graph.map (·.cmd.id), s.heads, s.stamp)) =
+    some ([1, 5, 6], [6], 0) := by decide +kernel
+example : (step { gid := 1 } (.newGraph [n0, n1, n2, nx])).2 = .err .rejected := by decide +kernel
+example : (step { gid := 1 } (.newGraph [n0, n1, n2, nx])).1.store.isSome = false := by decide +kernel
+example : (step { gid := 1 } (.newGraph [])).2 = .err .emptyPerspective := by decide +kernel
+example : (step (step { gid := 1 } (.newGraph [n0, n1])).1 (.newGraph [n0, n1])).2 = .err .storageExists := by
+  decide +kernel
+example : (run { gid := 1 } [.newGraph [n0, n1], .openT 0, .add 0 [i0, ca], .commit 0]).store.map
+    (fun s => (s.graph.map (·.cmd.id), s.heads)) = some ([1, 5, 2], [2, 5]) := by decide +kernel
 
 end AranyaV.Trx
